@@ -431,3 +431,20 @@ func runC18(rc *RunCtx) {
 	}
 	rc.Phase = "done"
 }
+
+// c18m — the adversarial traffic (and the UDP expiry run shape) in a race
+// build; only unsynchronised concurrent map accesses are reported (the driver
+// filters the detector's reports): in production the Go runtime aborts the
+// process on them, which is a crash that no recover() catches.
+func init() {
+	Register(&Scenario{Name: "c18m", Prop: "C18", MaxSteps: 400000, Run: func(rc *RunCtx) {
+		switch rc.G.Draw(3) {
+		case 0:
+			runC14(quiet(rc))
+		case 1:
+			runUDP(quiet(rc), "c03")
+		default:
+			runC18(quiet(rc))
+		}
+	}})
+}
